@@ -634,6 +634,7 @@ type Scenario struct {
 	Blocks []ast.Block
 	Auth   ast.AuthContent
 	Probes []ast.Rule
+	Big    string // label of the big shape carried, if any
 }
 
 func NewScenario(r *rand.Rand, maxBlocks int, o BlockOpts) *Scenario {
@@ -665,6 +666,15 @@ func NewScenario(r *rand.Rand, maxBlocks int, o BlockOpts) *Scenario {
 		}
 	}
 	known = append(known, s.Auth.Facts...)
+	// one scenario in six carries a big shape (gen/big.go) in one of its blocks or in the authorizer
+	var big *Big
+	bigAt := -1
+	if r.Intn(6) == 0 {
+		bc := BigContent(r, r.Intn(NumBigShapes), true, r.Intn(3) == 0)
+		big = &bc
+		bigAt = r.Intn(nb+1) - 1 // -1: the authorizer
+		s.Big = bc.Label
+	}
 	// re-draw checks and policies so that a good share of them is satisfiable
 	for i := range s.Blocks {
 		k := known
@@ -682,6 +692,16 @@ func NewScenario(r *rand.Rand, maxBlocks int, o BlockOpts) *Scenario {
 		s.Auth.Policies[j] = u.PolicyFrom(r, o.Rule, known)
 	}
 	s.Probes = u.Probes()
+	if big != nil {
+		if bigAt >= 0 {
+			big.AddTo(&s.Blocks[bigAt])
+		} else {
+			s.Auth.Facts = append(s.Auth.Facts, big.Facts...)
+			s.Auth.Rules = append(s.Auth.Rules, big.Rules...)
+			s.Auth.Checks = append(s.Auth.Checks, big.Checks...)
+		}
+		s.Auth.Policies = append(s.Auth.Policies, big.Policies...)
+	}
 	return s
 }
 
